@@ -57,7 +57,14 @@ uint32_t st_extract_element(void *fromv, uint32_t sz, void *tagv, void *valv, ui
   if (sz == 0) { *tag = 0; *val = 0; return 0; }
   for (int k = 0; k < TKMAX; k++) if (k < TK_n && TK_on[k] && TK_off[k] == off) {
     if (TK_garb[k]) { *tag = 0; *val = 0; return 0; }          /* not a token (C03_ext_*: recognised iff digits '=' bytes SOH inside sz) */
-    if (TK_isdata[k]) { TK_bad = 1; __CPROVER_assert(0, "the byte tokenizer is never applied to a length-prefixed value"); __CPROVER_assume(0); }      /* the byte tokenizer applied to a length-prefixed value: outside the cut's contract, reported by the harness */
+    if (TK_isdata[k]) {
+      /* the byte tokenizer applied to a length-prefixed value: its contract (token ends at the first SOH after '=') yields the token of the table only if
+         the value holds no SOH; a value with SOH would be split - reported as a failure of the harness (C06) */
+      int hassoh = 0; for (int j = 0; j < 7; j++) if (j < TK_vlen[k] && TK_val[k][j] == SOH) hassoh = 1;
+      if (hassoh) TK_bad = 1;
+      __CPROVER_assert(!hassoh, "C06: the byte tokenizer is never applied to a length-prefixed value that holds the field separator");
+      __CPROVER_assume(!hassoh);
+    }
     if (TK_w[k] > sz) { TK_bad = 1; return 0; }                 /* never the case: every token ends inside the region it is read from */
     if (TK_tlen[k] >= tag_sz || TK_vlen[k] >= val_sz) { *tag = 0; *val = 0; return 0; }   /* capacity contract (repo 4884c13): an element that does not fit the caller's buffers is not extracted */
     for (int j = 0; j < 6; j++) tag[j] = (j < 5 && j < TK_tlen[k]) ? TK_tag[k][j] : 0;     /* text + terminator (bytes after the terminator are never read) */
